@@ -623,6 +623,9 @@ class VectorContainer:
                 if isinstance(start, slice):
                     start = start.start
 
+            # Only period labels (in backticks) are inclusive of the endpoint
+            stop_is_label = '`' in stop
+
             if len(stop):
                 stop = resolve_index_in_span(stop)
 
@@ -633,7 +636,7 @@ class VectorContainer:
 
             # Adjust for closed intervals on the right-hand side (mirroring
             # `pandas`)
-            if isinstance(stop, int):
+            if stop_is_label and isinstance(stop, int):
                 stop += 1
 
             # Resolve third (`step`) argument
